@@ -1,11 +1,14 @@
 #!/usr/bin/env python3
-"""Sensitivity self-test: apply hand-written breaking changes (DESIGN.md §7 'Mutants') to /repo one at a
-time, run the owning property's quick check, expect a VIOLATION, and restore the tree.
+"""Sensitivity self-test: apply hand-written breaking changes (DESIGN.md §7 'Mutants') one at a time to a scratch
+worktree of /repo (never to /repo itself), run the owning property's quick check against that tree
+(XSIM_REPO / XSIM_SCRATCH: binaries, evidence and replays go to the scratch directory), expect a VIOLATION.
 usage: tools/mutants.py [name-substring ...]      (development aid; never part of a registered check)
 """
 import os, re, subprocess, sys, time, json
 
-REPO = "/repo"
+SRC = "/repo"
+REPO = "/tmp/xs_mut_wt"      # scratch worktree, removed at the end
+SCRATCH = "/tmp/xs_mut_out"  # scratch binaries / evidence / replays, removed at the end
 ROOT = "/verif"
 
 # (name, property, file, old, new)  -- old/new use \n; CRLF files are handled transparently
@@ -117,6 +120,17 @@ def apply(path, old, new):
 def main():
     sel = sys.argv[1:]
     results = []
+    subprocess.run(["git", "-C", SRC, "worktree", "remove", "--force", REPO], capture_output=True)
+    subprocess.run(["git", "-C", SRC, "worktree", "add", "--detach", REPO, "HEAD"], check=True, capture_output=True)
+    try:
+        run_all(sel, results)
+    finally:
+        subprocess.run(["git", "-C", SRC, "worktree", "remove", "--force", REPO], capture_output=True)
+        subprocess.run(["rm", "-rf", SCRATCH])
+    json.dump(results, open(os.path.join(ROOT, "tools", "mutants_last.json"), "w"), indent=1)
+
+
+def run_all(sel, results):
     for name, prop, f, old, new in M:
         if sel and not any(s in name or s == prop for s in sel):
             continue
@@ -127,7 +141,7 @@ def main():
             results.append((name, prop, "noapply", 0))
             continue
         t0 = time.time()
-        env = dict(os.environ)
+        env = dict(os.environ, XSIM_REPO=REPO, XSIM_SCRATCH=SCRATCH)
         r = subprocess.run([os.path.join(ROOT, "check"), prop, "quick"], capture_output=True, text=True, env=env)
         dt = time.time() - t0
         viol = [l for l in r.stdout.splitlines() if l.startswith("VIOLATION")]
@@ -136,9 +150,6 @@ def main():
         print("%-34s %s  %-8s %5.0fs  %s" % (name, prop, status, dt, ",".join(sorted(set(cls)))[:80]), flush=True)
         results.append((name, prop, status, dt))
         subprocess.run(["git", "-C", REPO, "checkout", "--", "xenium"], check=True)
-    # evidence and replay files written by these runs describe mutated trees: drop them
-    subprocess.run("git checkout -- evidence replays; git clean -fdq replays", shell=True, cwd=ROOT)
-    json.dump(results, open(os.path.join(ROOT, "tools", "mutants_last.json"), "w"), indent=1)
 
 
 if __name__ == "__main__":
